@@ -217,8 +217,12 @@ structure Prog where
   imports : List String      -- stems of helper modules in the root directory, executed first
   stmts : List Stmt
 
+/-- Identity of a function object at run time: (execution of a module file, `obj` label of the `def`).
+Executing the same file twice creates fresh objects. -/
+abbrev ObjId := Nat × Nat
+
 inductive Obj where
-  | fn (id : Nat)
+  | fn (id : ObjId)
   | value
 
 abbrev Namespace := List (String × Obj)
@@ -230,17 +234,18 @@ structure Module where
 abbrev ModKey := List String
 
 structure World where
-  heap : List (Nat × FnObj)
-  registry : List (Path × List Nat)      -- COLLECTED_TASKS
+  heap : List (ObjId × FnObj)
+  registry : List (Path × List ObjId)    -- COLLECTED_TASKS
   modules : List (ModKey × Module)       -- sys.modules
+  nextGen : Nat                          -- number of module executions so far
 
-def regGet (r : List (Path × List Nat)) (k : Path) : List Nat := (r.lookup k).getD []
+def regGet (r : List (Path × List ObjId)) (k : Path) : List ObjId := (r.lookup k).getD []
 
-def regAppend (r : List (Path × List Nat)) (k : Path) (o : Nat) : List (Path × List Nat) :=
+def regAppend (r : List (Path × List ObjId)) (k : Path) (o : ObjId) : List (Path × List ObjId) :=
   if r.any (fun e => e.1 == k) then r.map (fun e => if e.1 == k then (e.1, e.2 ++ [o]) else e)
   else r ++ [(k, [o])]
 
-def regErase (r : List (Path × List Nat)) (k : Path) : List (Path × List Nat) :=
+def regErase (r : List (Path × List ObjId)) (k : Path) : List (Path × List ObjId) :=
   r.filter (fun e => !(e.1 == k))
 
 /-- `_parse_name`: `name` if truthy, else `__name__`. -/
@@ -249,33 +254,37 @@ def parseName (name : Option String) (fname : String) : String :=
   | some n => if n == "" then fname else n
   | none => fname
 
-def execStmt (file : Path) (st : World × Namespace) : Stmt → World × Namespace
+def execStmt (file : Path) (gen : Nat) (st : World × Namespace) : Stmt → World × Namespace
   | .defFn obj bind fname params defaults tag =>
     let f : FnObj := { file := file, fname := fname, params := params, defaults := defaults, tag := tag,
                        marked := false, metaName := "", metaId := none, metaKwargs := [] }
-    let w := { st.1 with heap := (obj, f) :: st.1.heap }
+    let w := { st.1 with heap := ((gen, obj), f) :: st.1.heap }
     match bind with
-    | some b => (w, st.2 ++ [(b, Obj.fn obj)])
+    | some b => (w, st.2 ++ [(b, Obj.fn (gen, obj))])
     | none => (w, st.2)
   | .wrap obj name id kwargs =>
-    match st.1.heap.lookup obj with
+    match st.1.heap.lookup (gen, obj) with
     | some f =>
       let f' := { f with marked := true, metaName := parseName name f.fname, metaId := id, metaKwargs := kwargs }
-      ({ st.1 with heap := (obj, f') :: st.1.heap, registry := regAppend st.1.registry f.file obj }, st.2)
+      ({ st.1 with heap := ((gen, obj), f') :: st.1.heap, registry := regAppend st.1.registry f.file (gen, obj) }, st.2)
     | none => st
   | .value b => (st.1, st.2 ++ [(b, Obj.value)])
 
-def execStmts (file : Path) (st : World × Namespace) (stmts : List Stmt) : World × Namespace :=
-  stmts.foldl (execStmt file) st
+def execStmts (file : Path) (gen : Nat) (st : World × Namespace) (stmts : List Stmt) : World × Namespace :=
+  stmts.foldl (execStmt file gen) st
+
+/-- One execution of the code of `file` in a fresh namespace: a new generation of objects. -/
+def execModule (file : Path) (w : World) (stmts : List Stmt) : World × Namespace :=
+  execStmts file w.nextGen ({ w with nextGen := w.nextGen + 1 }, []) stmts
 
 def progOf (progs : List (Path × Prog)) (p : Path) : Prog := (progs.lookup p).getD { imports := [], stmts := [] }
 
 def execHelper (progs : List (Path × Prog)) (root : Path) (w : World) (h : String) : World :=
-  (execStmts (root ++ [h ++ ".py"]) (w, []) (progOf progs (root ++ [h ++ ".py"])).stmts).1
+  (execModule (root ++ [h ++ ".py"]) w (progOf progs (root ++ [h ++ ".py"])).stmts).1
 
 /-- Executing the module file `p`: helper imports first, then its own statements. -/
 def execFile (progs : List (Path × Prog)) (root : Path) (w : World) (p : Path) : World × Namespace :=
-  execStmts p ((progOf progs p).imports.foldl (execHelper progs root) w, []) (progOf progs p).stmts
+  execModule p ((progOf progs p).imports.foldl (execHelper progs root) w) (progOf progs p).stmts
 
 /-- `inspect.getmembers`: one entry per name, the last binding wins (order is immaterial). -/
 def nsFinal : Namespace → Namespace
@@ -363,7 +372,7 @@ structure Env where
   preloaded : List ModKey        -- names already in `sys.modules` (interpreter, stdlib)
 
 def Env.init (env : Env) : World :=
-  { heap := [], registry := [], modules := env.preloaded.map (fun k => (k, { src := none, ns := [] })) }
+  { heap := [], registry := [], modules := env.preloaded.map (fun k => (k, { src := none, ns := [] })), nextGen := 0 }
 
 def loadAs (env : Env) (w : World) (key : ModKey) (src : Path) : World × Module :=
   let r := execFile env.progs env.cfg.root w src
@@ -379,7 +388,20 @@ def insertMissing (w : World) (key : ModKey) : World :=
                  (fun ms k => if ms.any (fun e => e.1 == k) then ms else ms ++ [(k, { src := none, ns := [] })])
                  w.modules }
 
-/-- `import_path(path, root)`; `none` = the import raised (namespace directory found by `find_spec`). -/
+/-- `spec_from_file_location` finds a loader only for source files (`.pyc` / extension modules are not generated). -/
+def isPySource (path : Path) : Bool := (path.getLast?.getD "").endsWith ".py"
+
+/-- second half of `import_path`: the name derived from the path relative to the root. -/
+def importByPath (env : Env) (w : World) (path : Path) : World × Option Module :=
+  match w.modules.lookup (pathKey env.cfg.root path) with
+  | some m => (w, some m)
+  | none =>
+    if isPySource path then
+      let r := loadAs env w (pathKey env.cfg.root path) path
+      (insertMissing r.1 (pathKey env.cfg.root path), some r.2)
+    else (w, none)
+
+/-- `import_path(path, root)`; `none` = the import raised (`find_spec` found a namespace directory, or no loader). -/
 def importPath (env : Env) (w : World) (path : Path) : World × Option Module :=
   match pkgTop env.fs path with
   | some pkg =>
@@ -390,20 +412,18 @@ def importPath (env : Env) (w : World) (path : Path) : World × Option Module :=
       match findSpecIn env.fs pkg.dropLast (key.getLast?.getD "") with
       | .file p => let r := loadAs env w key p; (r.1, some r.2)
       | .namespace => ({ w with modules := w.modules ++ [(key, { src := none, ns := [] })] }, none)
-      | .notFound => let r := loadAs env w key path; (r.1, some r.2)
-  | none =>
-    let key := pathKey env.cfg.root path
-    match w.modules.lookup key with
-    | some m => (w, some m)
-    | none => let r := loadAs env w key path; (insertMissing r.1 key, some r.2)
+      | .notFound =>
+        if isPySource path then let r := loadAs env w key path; (r.1, some r.2)
+        else importByPath env w path
+  | none => importByPath env w path
 
 /-! ## 5. The two `pytask_collect_file` implementations -/
 
 inductive Report where
-  | succ (path : Path) (base : String) (obj : Nat)
+  | succ (path : Path) (base : String) (obj : ObjId)
   | fail
 
-def isMarked (w : World) (o : Nat) : Bool :=
+def isMarked (w : World) (o : ObjId) : Bool :=
   match w.heap.lookup o with
   | some f => f.marked
   | none => false
@@ -419,17 +439,17 @@ def prefixMember (w : World) (path : Path) (e : String × Obj) : Option Report :
 def prefixReports (w : World) (path : Path) (m : Module) : List Report :=
   (nsFinal m.ns).filterMap (prefixMember w path)
 
-def hasDup : List Nat → Bool
+def hasDup : List ObjId → Bool
   | [] => false
   | x :: xs => xs.contains x || hasDup xs
 
-abbrev Dict := List (String × Nat)
+abbrev Dict := List (String × ObjId)
 
 /-- `d[k] = v` on an insertion-ordered dict. -/
-def dictSet (d : Dict) (k : String) (v : Nat) : Dict :=
+def dictSet (d : Dict) (k : String) (v : ObjId) : Dict :=
   if d.any (fun e => e.1 == k) then d.map (fun e => if e.1 == k then (k, v) else e) else d ++ [(k, v)]
 
-def metaNameOf (w : World) (o : Nat) : String :=
+def metaNameOf (w : World) (o : ObjId) : String :=
   match w.heap.lookup o with
   | some f => f.metaName
   | none => ""
@@ -443,7 +463,7 @@ def kwargOf (f : FnObj) (p : String) : Option Val :=
 def bracket (name inner : String) : String := name ++ Generated.idOpen ++ inner ++ Generated.idClose
 
 /-- the id of the `i`-th function of a repeated name (`_generate_ids_for_tasks`, loop body). -/
-def taskId (w : World) (params : List String) (name : String) (i : Nat) (o : Nat) : String :=
+def taskId (w : World) (params : List String) (name : String) (i : Nat) (o : ObjId) : String :=
   match w.heap.lookup o with
   | none => bracket name (toString i)
   | some f =>
@@ -453,13 +473,13 @@ def taskId (w : World) (params : List String) (name : String) (i : Nat) (o : Nat
       if params.isEmpty then bracket name (toString i)
       else bracket name (Generated.idJoin.intercalate (params.map (fun p => argToIdComponent p (kwargOf f p) i)))
 
-def genLoop (w : World) (params : List String) : Nat → List (String × Nat) → Dict → Option Dict
+def genLoop (w : World) (params : List String) : Nat → List (String × ObjId) → Dict → Option Dict
   | _, [], out => some out
   | i, (name, o) :: rest, out =>
     if out.any (fun e => e.1 == taskId w params name i o) then none
     else genLoop w params (i + 1) rest (out ++ [(taskId w params name i o, o)])
 
-def paramsOfFirst (w : World) (sel : List (String × Nat)) : List String :=
+def paramsOfFirst (w : World) (sel : List (String × ObjId)) : List String :=
   match sel with
   | (_, o) :: _ => match w.heap.lookup o with
     | some f => f.params
@@ -467,14 +487,14 @@ def paramsOfFirst (w : World) (sel : List (String × Nat)) : List String :=
   | [] => []
 
 /-- `_generate_ids_for_tasks`; `none` = `ValueError` (duplicated id). -/
-def generateIds (w : World) (sel : List (String × Nat)) : Option Dict :=
+def generateIds (w : World) (sel : List (String × ObjId)) : Option Dict :=
   genLoop w (paramsOfFirst w sel) 0 sel []
 
 def dedup : List String → List String
   | [] => []
   | x :: xs => x :: (dedup xs).filter (fun y => y != x)
 
-def parseStep (w : World) (parsed : List (String × Nat)) (acc : Option Dict) (name : String) : Option Dict :=
+def parseStep (w : World) (parsed : List (String × ObjId)) (acc : Option Dict) (name : String) : Option Dict :=
   match acc with
   | none => none
   | some d =>
@@ -488,7 +508,7 @@ def parseStep (w : World) (parsed : List (String × Nat)) (acc : Option Dict) (n
       | [] => some d
 
 /-- `parse_collected_tasks_with_task_marker`; `enum` is the iteration order of the set `all_names`. -/
-def parseCollected (enum : List String → List String) (w : World) (tasks : List Nat) : Option Dict :=
+def parseCollected (enum : List String → List String) (w : World) (tasks : List ObjId) : Option Dict :=
   let parsed := tasks.map (fun o => (metaNameOf w o, o))
   (enum (dedup (parsed.map (·.1)))).foldl (parseStep w parsed) (some [])
 
@@ -535,11 +555,11 @@ def leftovers (w : World) : List Report := w.registry.flatMap (fun e => e.2.map 
 structure Task where
   path : Path
   base : String
-  obj : Nat
+  obj : ObjId
   tag : Nat
 deriving DecidableEq, Repr
 
-def tagOf (w : World) (o : Nat) : Nat :=
+def tagOf (w : World) (o : ObjId) : Nat :=
   match w.heap.lookup o with
   | some f => f.tag
   | none => 0
